@@ -117,7 +117,9 @@ def hop_scenario(depth):
     async def main():
         async with trio.open_nursery() as n:
             n.start_soon(in_trio, depth)
-            for _ in range(60): await trio.sleep(0.005)
+            # wait on the condition, not on the clock: in_trio(0) records itself and then parks without another checkpoint
+            while "st" not in res: await trio.sleep(0.001)
+            await trio.sleep(0); await trio.sleep(0)
             (task,) = n.child_tasks
             with warnings.catch_warnings(record=True) as w:
                 warnings.simplefilter("always")
